@@ -4,7 +4,7 @@
   authority sections and (one way) the additional section, under the audit's guards.
 
   Modulo two named hypotheses about the writer / decoder, neither proved here:
-  `ServerAnswer.ScratchIndep` (Proofs/ServerAnswerTwoRun.lean) and `DecodeCongr` (below).
+  `ScratchIndepI` (Proofs/ServerAnswerTwoRunI.lean) and `DecodeCongr` (below).
 -/
 import QV.Proofs.ServerSignedPlain
 
@@ -183,11 +183,11 @@ theorem all2_nil_left {α β : Type} {R : α → β → Prop} (l : List β) (h :
   cases h; rfl
 
 /-- **the comparison clause of "answered normally", for an authenticated request that a loaded zone
-    answers** — modulo `ScratchIndep` and `DecodeCongr`.  `b` is the signed response, `pb` the response
+    answers** — modulo `ScratchIndepI` and `DecodeCongr`.  `b` is the signed response, `pb` the response
     to the request without its TSIG record; neither decoding has TC; the plain response leaves room for
     the TSIG record; a plain SERVFAIL is a signed SERVFAIL.  Then both show the same RCODE and AA, the
     same answer and authority records, and the same additional records apart from OPT / TSIG. -/
-theorem compare_core (hSI : ScratchIndep) (hDC : DecodeCongr)
+theorem compare_core (hSI : ScratchIndepI) (hDC : DecodeCongr)
     (cfg : Cfg) (hcfg : CfgWF cfg) (cat : List ZoneCfg) (tr : Transport) (now : Nat) (req : Bytes)
     (hbuf : minBuf tr cfg.payload ≤ 65535) (hpay : 512 ≤ cfg.payload) (hp16 : cfg.payload ≤ 65535)
     (hreq : req.size ≤ Rdata.USIZE_MAX)
@@ -257,7 +257,10 @@ theorem compare_core (hSI : ScratchIndep) (hDC : DecodeCongr)
     simp only [Option.map_some, Option.some.injEq] at c3
     have hk : e.kind = .Loaded := by
       cases hk : e.kind <;> rw [hk] at c3 <;> first | rfl | cases c3
-    obtain ⟨ze, hze, _, _, _⟩ := mkCatalog_lookup cfg.zones qn.labels q.qclass e hl
+    obtain ⟨ze, hze, _, _, hsuf⟩ := mkCatalog_lookup cfg.zones qn.labels q.qclass e hl
+    obtain ⟨hawf, haeq, hnode⟩ := hcfg.zones ze (List.mem_of_getElem? hze)
+    have hz : ZoneOK ze.zone := ⟨by rw [haeq]; exact fold_wf _ hawf, hnode⟩
+    have hsub : ze.zone.apex <:+ fold qn := by rw [haeq]; exact hsuf
     generalize hSS : scanState cfg tr 65535 req (Spec.Server.hdr req 0) (((req.getD 2 0).toNat &&& 120) >>> 3)
       (((req.getD 2 0).toNat &&& 1) != 0) q = SS at *
     -- both writers, exposed
@@ -325,9 +328,11 @@ theorem compare_core (hSI : ScratchIndep) (hDC : DecodeCongr)
         simp only at ft
         simp [ft.1]
     have hcmpV := signed_handler_eq_plain hSI cfg tr 65535 req hbuf hpay (Spec.Server.hdr req 0)
-      (((req.getD 2 0).toNat &&& 120) >>> 3) (((req.getD 2 0).toNat &&& 1) != 0) q nx hsq ze.zone qn
+      (((req.getD 2 0).toNat &&& 120) >>> 3) (((req.getD 2 0).toNat &&& 1) != 0) q nx hsq ze.zone hz qn (parse_wf hqn) hsub
+    rw [hSS] at hcmpV
+    replace hcmpV := hcmpV gP.1 hqrP.hint
       (.response (Server.toWriterAlg alg) t.mac key.secret) (prepOf kn t nowT 0)
-    rw [hSS, ← hSeq] at hcmpV
+    rw [← hSeq] at hcmpV
     have hcurP : SS.cursor ≤ (handleNonAxfrQueryL ze.zone qn q.qtype tr ⟨SS, []⟩).2.w.cursor ∨ True := Or.inr trivial
     obtain ⟨hview, hokc⟩ := hcmpV
       (by omega)
